@@ -302,6 +302,10 @@ func (h *httpFault) port() int { return h.ln.Addr().(*net.TCPAddr).Port }
 func (h *httpFault) set(mode string) {
 	h.mu.Lock()
 	h.mode = mode
+	// kept-alive connections were accepted under the old mode: the next request opens a new one
+	for c := range h.conns {
+		c.Close()
+	}
 	h.mu.Unlock()
 }
 func (h *httpFault) close() {
@@ -826,6 +830,54 @@ func runLookupSync(lc *lsCase, dir string) {
 			lc.failf("[badident] a topic created while nsqlookupd was unreachable, then one corrupted IDENTIFY answer: %s, still so after 80 heartbeat intervals", why)
 		}
 		return
+	case "onefaulty":
+		// the FIRST of two nsqlookupds stays faulty for good (refuses, closes at once, answers garbage, stalls); topics and
+		// channels come and go; the healthy one converges all the same, and keeps converging
+		if len(lds) < 2 {
+			lc.Incon = "needs two lookupds"
+			return
+		}
+		fm := []string{"close", "garbage", "negsize", "stall"}[int(lc.Seed)%4]
+		lc.Faults = append(lc.Faults, "0:"+fm+" (for good)")
+		proxies[0].set(fm, "", true)
+		healthy := func(limit time.Duration) (bool, string) {
+			start := time.Now()
+			last := ""
+			for time.Since(start) < limit {
+				want, err := nsqdTopology(nd)
+				if err != nil {
+					return false, err.Error()
+				}
+				got, err := lds[1].regsOf(tcpPort)
+				if err != nil {
+					return false, err.Error()
+				}
+				if strings.Join(got, ",") == strings.Join(want, ",") {
+					return true, ""
+				}
+				last = fmt.Sprintf("the healthy nsqlookupd lists %v for this nsqd, which has %v", got, want)
+				time.Sleep(50 * time.Millisecond)
+			}
+			return false, last
+		}
+		for round := 0; round < 3; round++ {
+			admin(fmt.Sprintf("/topic/create?topic=of%d", round))
+			admin(fmt.Sprintf("/channel/create?topic=of%d&channel=c", round))
+			if round > 0 {
+				admin(fmt.Sprintf("/channel/delete?topic=of%d&channel=c", round-1))
+			}
+			// (a peer that accepts and never answers costs nsqd's single lookup loop a second per command, every heartbeat
+			// included -- with the 150 ms heartbeat of this harness that is slow, not stopped: 30 s)
+			limit := 40 * heartbeat
+			if fm == "stall" {
+				limit = 200 * heartbeat
+			}
+			if ok, why := healthy(limit); !ok {
+				lc.failf("[onefaulty] the first of two nsqlookupds is faulty for good (%s); %s, still so after %d heartbeat intervals", fm, why, limit/heartbeat)
+				return
+			}
+		}
+		return
 	case "page":
 		// something that does not speak the protocol answers in the nsqlookupd's place for a while (an error page, many
 		// times longer than a frame header) -- then the nsqlookupd is back
@@ -924,6 +976,7 @@ func runLookupSync(lc *lsCase, dir string) {
 				more = append(more, nm)
 			}
 		}
+		admin("/topic/create?topic=bystander")
 		hfault.set(mode)
 		oc, err := dial(nd.TCP, "otherh")
 		if err != nil {
@@ -953,6 +1006,22 @@ func runLookupSync(lc *lsCase, dir string) {
 		if blocking {
 			// while the creating request waits for the faulty side, other publishers find the topic and publish to it
 			time.Sleep(150 * time.Millisecond)
+			// ... and a publish to a topic that has existed all along has nothing to wait for
+			tp := time.Now()
+			if st, _, err := nd.post("/pub?topic=bystander", []byte("b")); err != nil || st != 200 {
+				lc.failf("[stall] publish to an existing topic failed while another topic's creation was waiting for a faulty nsqlookupd: %v %d", err, st)
+			} else if d := time.Since(tp); d > 400*time.Millisecond && time.Since(t0) < 1200*time.Millisecond {
+				// (nsqd's own limit for the query is 600 ms: a publish that took that long sat behind it)
+				stillWaiting := true
+				select {
+				case r := <-pubDone:
+					pubDone <- r
+					stillWaiting = false
+				default:
+				}
+				_ = stillWaiting
+				lc.failf("[stall] one nsqlookupd's HTTP side was faulty (%s) and kept the creation of a topic waiting; a publish to ANOTHER topic, which has existed all along, took %s meanwhile", mode, d.Round(time.Millisecond))
+			}
 			for i := 0; i < 5; i++ {
 				if st, _, err := nd.post("/pub?topic="+topic, []byte(fmt.Sprintf("meanwhile-%d", i))); err == nil && st == 200 {
 					extra++
